@@ -77,6 +77,44 @@ theorem sharp_ddt_dd_displaced {N : ℕ} (hN : 0 < N) (ddt dd γ lam κ : ℝ)
       = (ddt * (lam * (1 - κ)), 0, dd * (1 + γ) / 2, 0) := by
   simp only [sharp_ddt_dd hN, C03.displace_formula _ _ _ _ _ _ hfloor]
 
+/-! ### model distances under scatter: the report is the moments of the drawn displacement factors -/
+
+theorem mean1_mul {N : ℕ} (c : ℝ) (xs : Fin N → ℝ) : mean1 (fun k => c * xs k) = c * mean1 xs := by
+  simp only [mean1, sumFin_eq, ← Finset.mul_sum]; ring
+
+theorem std1_mul {N : ℕ} (c : ℝ) (xs : Fin N → ℝ) : std1 (fun k => c * xs k) = |c| * std1 xs := by
+  simp only [std1, mean1_mul, sumFin_eq, Trans.sqrt]
+  have e : ∀ k, (c * xs k - c * mean1 xs) * (c * xs k - c * mean1 xs)
+      = (c * c) * ((xs k - mean1 xs) * (xs k - mean1 xs)) := fun k => by ring
+  simp only [e, ← Finset.mul_sum, mul_div_assoc]
+  rw [Real.sqrt_mul (mul_self_nonneg c), Real.sqrt_mul_self_eq_abs]
+
+/-- **model distances with scatter**: with `N` draws of the total displacement factor `λ_k(1−κ_k)` (each
+    above the floor) and of the PPN parameter, the reported model Ddt has mean `Ddt · mean(λ(1−κ))` and
+    spread `|Ddt| · std(λ(1−κ))`, the reported Dd has mean `Dd · mean((1+γ)/2)` and spread
+    `|Dd| · std((1+γ)/2)` — the population moments of the displacement carried over by the (linear)
+    rescaling of C03, for every `N` and every realisation of the draws. -/
+theorem scatter_ddt_dd_moments {N : ℕ} (ddt dd : ℝ) (lam κ γ : Fin N → ℝ)
+    (hfloor : ∀ k, (1 / 10000 : ℝ) ≤ lam k * (1 - κ k)) :
+    ddtDdModelPrediction (fun k => (Lens.displace ddt dd (γ k) (lam k) (κ k) 0).1)
+        (fun k => (Lens.displace ddt dd (γ k) (lam k) (κ k) 0).2.1)
+      = (ddt * mean1 (fun k => lam k * (1 - κ k)), |ddt| * std1 (fun k => lam k * (1 - κ k)),
+         dd * mean1 (fun k => (1 + γ k) / 2), |dd| * std1 (fun k => (1 + γ k) / 2)) := by
+  have e1 : (fun k => (Lens.displace ddt dd (γ k) (lam k) (κ k) 0).1) = fun k => ddt * (lam k * (1 - κ k)) := by
+    funext k; rw [C03.displace_formula _ _ _ _ _ _ (hfloor k)]
+  have e2 : (fun k => (Lens.displace ddt dd (γ k) (lam k) (κ k) 0).2.1) = fun k => dd * ((1 + γ k) / 2) := by
+    funext k; rw [C03.displace_formula _ _ _ _ _ _ (hfloor k)]; ring
+  simp only [ddtDdModelPrediction, e1, e2, mean1_mul, std1_mul]
+
+/-- … in particular a population without spread in the displacement reports zero spread whatever `N` -/
+theorem scatter_zero_spread {N : ℕ} (hN : 0 < N) (ddt dd lam κ γ : ℝ)
+    (hfloor : (1 / 10000 : ℝ) ≤ lam * (1 - κ)) :
+    ddtDdModelPrediction (fun _ : Fin N => (Lens.displace ddt dd γ lam κ 0).1)
+        (fun _ : Fin N => (Lens.displace ddt dd γ lam κ 0).2.1)
+      = (ddt * (lam * (1 - κ)), 0, dd * ((1 + γ) / 2), 0) := by
+  rw [scatter_ddt_dd_moments ddt dd (fun _ => lam) (fun _ => κ) (fun _ => γ) (fun _ => hfloor)]
+  simp only [mean1_const hN, std1_const hN, mul_zero]
+
 /-- the types that report a Ddt measurement are exactly the Ddt-carrying types of the generated
     dispatch table that carry a (mean, sigma) — Gaussian and sample-based ones -/
 theorem ddt_measurement_types :
